@@ -245,6 +245,26 @@ func c11Calls() []c11Call {
 			err := json.NewDecoder(strings.NewReader(`[{"v":1,"kids":[{"v":2},{"v":3,"kids":[{"v":5}]}]},{"v":4}]`)).Decode(&v)
 			return fmt.Sprintf("%+v %v", v, err)
 		}},
+		{"Unmarshal([]struct, syntax error after two complete elements)", func(e *c11Env) string {
+			var v []c11Dst
+			err := json.Unmarshal([]byte(`[{"a":1,"b":"w","n":"5"},{"a":2,"b":"x","n":"6"} {}]`), &v)
+			return fmt.Sprintf("%+v %v", v, err != nil)
+		}},
+		{"Decoder.Decode([]struct, input ends after two complete elements)", func(e *c11Env) string {
+			var v []c11Dst
+			err := json.NewDecoder(strings.NewReader(`[{"a":1,"b":"w","n":"5"},{"a":2,"b":"x","n":"6"}`)).Decode(&v)
+			return fmt.Sprintf("%+v %v", v, err != nil)
+		}},
+		{"Unmarshal([]struct, elements omit members)", func(e *c11Env) string {
+			var v []c11Dst
+			err := json.Unmarshal([]byte(`[{},{"a":7},{"b":"only"}]`), &v)
+			return fmt.Sprintf("%+v %v", v, err)
+		}},
+		{"Decoder.Decode([]struct, elements omit members)", func(e *c11Env) string {
+			var v []c11Dst
+			err := json.NewDecoder(strings.NewReader(`[{},{"a":7},{"b":"only"}]`)).Decode(&v)
+			return fmt.Sprintf("%+v %v", v, err)
+		}},
 		{"Decoder.DecodeContext then Decode", func(e *c11Env) string {
 			e.decIn.WriteString(dup + " " + dup + " ")
 			var v1, v2 c11Dst
@@ -431,7 +451,7 @@ func c11BFS(c *work.Ctx) {
 	if !c.Quick() {
 		maxDepth = 5
 	}
-	maxStates := 2000
+	maxStates := 3000
 	if !c.Quick() {
 		maxStates = 20000
 	}
@@ -463,6 +483,11 @@ func c11BFS(c *work.Ctx) {
 		for depth := 1; depth < maxDepth && len(frontier) > 0; depth++ {
 			var next [][]int
 			for _, hist := range frontier {
+				if c.TimeUp() {
+					c.NotExhaustive(fmt.Sprintf("c11.bfs: deadline reached at depth %d of partition %s (%d states so far); the shallower depths were explored completely", depth+1, calls[first].name, len(seen)))
+					next = nil
+					break
+				}
 				for k := range calls {
 					h2 := append(append([]int(nil), hist...), k)
 					env, _ := build(hist)
